@@ -129,21 +129,27 @@ Fixpoint scan_from (h : pheap) (prog : bytes) (d : decl) (i : nat) (l : list ent
   | v :: r => scan_from h prog d (S i) r (scan_step h prog d i v s)
   end.
 
+(* if len(s.Metrics[m.Name]) > 0 { t := s.Metrics[m.Name][0].Kind; if m.Kind != t { return error } } *)
+Definition kind_conflict (l : list entry) (d : decl) : bool :=
+  match l with
+  | v0 :: _ => negb (N.eqb (d_kind d) (d_kind (e_decl v0)))
+  | [] => false
+  end.
+
+(* s.Metrics[m.Name] = append(s.Metrics[m.Name], m); if dupeIndex >= 0 { remove it } *)
+Definition replace_dupe (l1 : list entry) (s : scan) : list entry :=
+  match sc_dupe s with Some i => remove_nth i l1 | None => l1 end.
+
 (* Store.Add(m) where m = object [o] of program [prog] with descriptor [d];
-   [h] is the heap of [prog].  None = the kind error. *)
+   [h] is the heap of [prog].  None = the kind error.  (With an empty bucket
+   the search loop does not run: the scan state stays the initial one.) *)
 Definition add (idx : index) (h : pheap) (prog : bytes) (o : N) (d : decl)
   : option (index * pheap) :=
   let l := entries_of idx (d_name d) in
-  match l with
-  | v0 :: _ =>
-      if negb (N.eqb (d_kind d) (d_kind (e_decl v0))) then None else
-      let s := scan_from h prog d 0%nat l (mkscan None (obj_lvs h o) false) in
-      let l1 := l ++ [mkentry prog o d] in
-      let l2 := match sc_dupe s with Some i => remove_nth i l1 | None => l1 end in
-      Some (bupdate (d_name d) l2 idx, set_obj_lvs h o (sc_mlvs s))
-  | [] =>
-      Some (bupdate (d_name d) [mkentry prog o d] idx, h)
-  end.
+  if kind_conflict l d then None else
+  let s := scan_from h prog d 0%nat l (mkscan None (obj_lvs h o) false) in
+  Some (bupdate (d_name d) (replace_dupe (l ++ [mkentry prog o d]) s) idx,
+        set_obj_lvs h o (sc_mlvs s)).
 End Add.
 
 Definition add_new := add true.
